@@ -607,7 +607,7 @@ loop:
 			}
 		}
 	}
-	close(r.arrivals)
+	// r.arrivals is never closed: a goroutine of a hung connection may still arrive at a gate
 	s.mu.Lock()
 	sort.Slice(s.evs, func(i, j int) bool { return s.evs[i].Seq < s.evs[j].Seq })
 	res.Events = s.evs
